@@ -631,7 +631,8 @@ impl NodeManage {
             if node.is_local {
                 NamingRouteAddr::Local(index as u64)
             } else {
-                NamingRouteAddr::Remote(index as u64, node.addr.clone())
+                //the receiver marks its copy of a routed instance with this value: it has to be the node id
+                NamingRouteAddr::Remote(node.id, node.addr.clone())
             }
         }
     }
